@@ -294,7 +294,7 @@ HEADER = "From Snax Require Import Base.Prelude Model.C14Dispatch.\n"
 
 def correspondence(ctx):
     rng = ctx.rng
-    n = ctx.n(200, 2500)
+    n = ctx.n(200, 1200)
     dis = []
     cases, meta = [], []
     for i in range(n):
@@ -400,7 +400,7 @@ CORPUS = [
 
 def search(ctx, deep=False):
     rng = ctx.rng
-    n = ctx.n(120, 1500) * (3 if deep else 1)
+    n = ctx.n(120, 800) * (3 if deep else 1)
     items = list(CORPUS)
     # xDMA region with a kernel no extension provides (was: ran on all cores)
     items.append(("func.func @f(%a : memref<64xi32>, %b : memref<64xi32>, %c : memref<64xi32>, %d : memref<64xi32>, %n : index, %cond : i1) {\n"
